@@ -6,6 +6,7 @@ import (
 	"go/types"
 	"math/big"
 	"os"
+	"unicode/utf8"
 
 	"golang.org/x/tools/go/ssa"
 )
@@ -157,6 +158,19 @@ func (st *State) eqValues(a, b Value) *Term {
 			}
 			if st.E.Trace {
 				fmt.Printf("    rvaleq ptr payloads %T %T\n", x.Val, y.Val)
+			}
+		}
+		if (x.Kind == rkChan || x.Kind == rkMap) && x.Ref == nil && y.Ref == nil && x.Val != nil && y.Val != nil {
+			// pointer-shaped as well: identity of the channel or map
+			switch xv := x.Val.(type) {
+			case *ChanV:
+				if yv, ok := y.Val.(*ChanV); ok {
+					return BoolT(xv.Obj == yv.Obj)
+				}
+			case *MapV:
+				if yv, ok := y.Val.(*MapV); ok {
+					return BoolT(xv.Obj == yv.Obj)
+				}
 			}
 		}
 		if x.Kind == rkFunc && x.Ref == nil && y.Ref == nil {
@@ -580,12 +594,20 @@ func (st *State) convert(v Value, from, to types.Type) Value {
 	if sl, ok := from.Underlying().(*types.Slice); ok && isStringType(to) && isIntType(sl.Elem()) {
 		sv := v.(*SliceV)
 		var bs []byte
+		isRune := false
+		if b, ok := sl.Elem().Underlying().(*types.Basic); ok && b.Kind() == types.Int32 {
+			isRune = true
+		}
 		for _, e := range st.sliceElems(sv) {
 			t := e.(*Term)
 			if !t.Const {
 				st.unsupported("string(symbolic bytes)")
 			}
-			bs = append(bs, byte(t.CI.Int64()))
+			if isRune {
+				bs = append(bs, string(rune(t.CI.Int64()))...)
+			} else {
+				bs = append(bs, byte(t.CI.Int64()))
+			}
 		}
 		return StrT(string(bs))
 	}
@@ -934,6 +956,16 @@ func (st *State) rangeInit(v Value) Value {
 }
 
 func (st *State) rangeNext(it *RangeIter, x *ssa.Next) Value {
+	if it.Str != nil && it.Str.Const {
+		// a constant string: its runes and their byte positions (it.Pos is a byte position here)
+		if it.Pos >= len(it.Str.CS) {
+			return TupleV{FalseT, st.E.intTerm(big.NewInt(0), types.Typ[types.Int]), st.E.intTerm(big.NewInt(0), types.Typ[types.Int32])}
+		}
+		r, w := utf8.DecodeRuneInString(it.Str.CS[it.Pos:])
+		pos := it.Pos
+		it.Pos += w
+		return TupleV{TrueT, st.E.intTerm(big.NewInt(int64(pos)), types.Typ[types.Int]), st.E.intTerm(big.NewInt(int64(r)), types.Typ[types.Int32])}
+	}
 	if it.Str != nil {
 		// ASCII strings: one byte per rune
 		n := st.strLen(it.Str)
